@@ -5868,9 +5868,12 @@ class Path(Shape, MutableSequence):
 
     def _validate_close(self, index):
         """ensure the close element at this position correctly links to the previous move"""
-        for i in range(index, -1, -1):
+        for i in range(index - 1, -1, -1):
             segment = self._segments[i]
-            if isinstance(segment, Move):
+            if isinstance(segment, Move) or (
+                isinstance(segment, Close) and segment.end is not None
+            ):
+                # An earlier close of the same move ended where this one must: no need to walk on.
                 self._segments[index].end = Point(segment.end)
                 return
         for segment in self._segments[: index + 1]:
@@ -6102,7 +6105,10 @@ class Path(Shape, MutableSequence):
         """
         end_pos = None
         for segment in reversed(self._segments):
-            if isinstance(segment, Move):
+            if isinstance(segment, Move) or (
+                isinstance(segment, Close) and segment.end is not None
+            ):
+                # An earlier close of the same move ended where the next one must: no need to walk on.
                 end_pos = segment.end
                 break
         if end_pos is None:
